@@ -69,7 +69,7 @@ def validate_trace(module, cfg, gen, trace_path, starts, prop_tags=("REJECT",), 
                     ln = v[1]
                     out["rejects"].append((base[i] + ln, v, json.loads(lines[ln - 1])))
                 else:
-                    out["tagged"].setdefault(tag, []).append(v)
+                    out["tagged"].setdefault(tag, []).append((base[i], v))
     return out
 
 
